@@ -674,6 +674,8 @@ def gen_osu_pipeline_doc(r: random.Random, keys: int, hi: int, t0: int = 0) -> d
     objs.sort(key=lambda o: o["offset"])
     doc["objs"] = objs
     doc["tps"] = [dict(kind="bpm", offset=t, code=repr(60000.0 / b), meter=4, sample_set=0, sample_set_index=0, volume=50, effects=0) for t, b in tempo]
+    if len(doc["tps"]) > 1 and r.random() < 0.3:
+        r.shuffle(doc["tps"])  # a file may list its timing points in any order
     doc["samples"] = []
     return doc
 
@@ -683,6 +685,8 @@ def gen_qua_pipeline_doc(r: random.Random, keys: int, hi: int, t0: int = 0) -> d
     doc["meta"]["Mode"] = {4: "Keys4", 7: "Keys7", 8: "Keys8"}[keys]
     tempo, hits, holds = gen_int_grid(r, keys, hi, t0)
     doc["tps"] = [dict(StartTime=t, Bpm=b) for t, b in tempo]
+    if len(doc["tps"]) > 1 and r.random() < 0.3:
+        r.shuffle(doc["tps"])
     doc["svs"] = [dict(StartTime=t0 - r.choice([500, 100, 0]), Multiplier=1.5)] if r.random() < 0.4 else []
     doc["objs"] = [dict(StartTime=t, Lane=c + 1, KeySounds=[]) for t, c in hits] + [dict(StartTime=t, Lane=c + 1, EndTime=e, KeySounds=[]) for t, c, e in holds]
     return doc
